@@ -35,6 +35,8 @@ class NPProxy:
         return self._o(_np.zeros(shape, dtype=object))
 
     def array(self, a, dtype=None, **k):
+        if getattr(dtype, "_symfloat", False):
+            dtype = float
         if dtype is object or dtype is None or dtype is float:
             try:
                 r = _np.array(a, dtype=object)
